@@ -330,6 +330,10 @@ func lexFixtures() []lxSpec {
 			{"", []lxRule{L("A", a, push("M")), L("X", lit("x"))}},
 			{"M", []lxRule{L("B", b, push("$default")), L("C", c, pop)}},
 		}},
+		// a rule that matches the empty string (accepted by the generator)
+		{name: "nullable-rule", alpha: []string{"a", "b"}, maxIn: 3, modes: []lxMode{{"", []lxRule{
+			L("AS", starT(a)), L("B", b),
+		}}}},
 		// a rule whose only mandatory part is a non-greedy repetition: one character per token
 		{name: "plus-nongreedy-alone", alpha: abc, maxIn: 5, modes: []lxMode{{"", []lxRule{
 			L("LETTER", lexTree{text: "[ab]+?", r: ab.r, size: 2, atom: true, post: true}), L("C", c), L("X", lit("x")),
@@ -412,8 +416,15 @@ func TestGeneratedLexer(t *testing.T) {
 				}
 			}
 			if got.Hung {
-				rep.fail("C11/lexing-reaches-EOF", label, "no EOF or error after 4*len+8 tokens")
+				obl := "C11/lexing-reaches-EOF"
+				if spec.name == "nullable-rule" {
+					obl += "/rule-matching-the-empty-string"
+				}
+				rep.fail(obl, label, "no EOF or error after 4*len+8 tokens")
 				continue
+			}
+			if spec.name == "nullable-rule" {
+				continue // the reference semantics is defined for rules that do not match the empty string
 			}
 			want, unaccounted := spec.reference(in)
 			if unaccounted {
